@@ -121,6 +121,8 @@ def gen_cases(tier, seed):
              "gflags": (["--isolate"] if nroots >= 2 and rng.random() < 0.4 else []) + (["-S"] if rng.random() < 0.2 else []),
              "seam_seed": rng.randint(1, 10**9)}
         c["roots_last"] = rng.random() < 0.5
+        if rng.random() < 0.15:
+            c["gflags"] = c["gflags"] + ["--exclude", rng.choice(["", " ", "''", "a b", "#", "x=y"])]   # odd words in the argument vector
         if kind == "roundtrip" and rng.random() < 0.4:
             # `group` started in a working directory with a hostile name, roots given RELATIVE to it: the
             # header's base directory must round-trip too, or inherited --isolate roots resolve elsewhere
